@@ -145,8 +145,10 @@ pub fn meta_c18(input: &[u8]) -> Option<Mismatch> {
 }
 
 // ------------------------------------------------------------------------------------------------------------- C15
+fn input_line(input: &[u8]) -> &[u8] { match input.iter().position(|&b| b == 13) { Some(p) => &input[..(p + 2).min(input.len())], None => input } }
 fn v1_views(input: &[u8], h: &v1::Header<'_>, entry: &str) -> Option<Mismatch> {
     let text: &str = h.header.as_ref();
+    if text.as_bytes() != input_line(input) { return mm(input, format!("{}: the header text is the line it was parsed from", entry), format!("{:?}", text)); }
     let (p, a, s) = (h.protocol().to_string(), h.addresses_str().to_string(), h.to_string());
     let body = text.strip_prefix("PROXY ").and_then(|t| t.strip_suffix("\r\n"));
     let Some(body) = body else { return mm(input, format!("{}: header text of the form PROXY ...CRLF", entry), format!("{:?}", text)) };
@@ -178,7 +180,7 @@ pub fn meta_c08(input: &[u8]) -> Option<Mismatch> {
         if let Ok(h) = v1::Header::try_from(input) { let t: &str = h.header.as_ref(); if h.to_string() != t || !input.starts_with(h.to_string().as_bytes()) { return mm(input, format!("formats back to {:?}", t), format!("{:?}", h.to_string())); } }
         if let Ok(t) = std::str::from_utf8(input) {
             if let Ok(h) = v1::Header::try_from(t) { let x: &str = h.header.as_ref(); if h.to_string() != x || !t.starts_with(&h.to_string()) { return mm(input, format!("formats back to {:?}", x), format!("{:?}", h.to_string())); } }
-            if let Ok(h) = t.parse::<v1::Header<'static>>() { if !t.starts_with(&h.to_string()) || !h.to_string().ends_with("\r\n") { return mm(input, "FromStr<Header>: formats back to the line it was parsed from", format!("{:?}", h.to_string())); } }
+            if let Ok(h) = t.parse::<v1::Header<'static>>() { if h.to_string().as_bytes() != input_line(input) { return mm(input, "FromStr<Header>: formats back to the line it was parsed from", format!("{:?}", h.to_string())); } }
         }
         None
     })
@@ -340,15 +342,17 @@ pub fn check_c07_roundtrip() -> (Option<Mismatch>, usize) {
         (v2::Addresses::Unix(ux), 0x30, bu),
     ];
     let big: Vec<u8> = (0..65535usize - 216 - 3).map(|i| (i * 13 + 1) as u8).collect();
+    let big3: Vec<u8> = big[..big.len() - 3].to_vec();      // ... followed by an empty TLV: again exactly 65535 bytes
     let lists: Vec<Vec<(u8, Vec<u8>)>> = vec![
         vec![], vec![(1, vec![0x68, 0x32])], vec![(4, vec![]), (0x20, vec![1, 2, 3]), (5, vec![9u8; 300]), (0xEE, vec![0])],
         vec![(2, b"example.org".to_vec()), (3, vec![0xde, 0xad, 0xbe, 0xef]), (0x30, b"ns".to_vec())], vec![(4, big)],
+        vec![(4, big3), (5, vec![])],
     ];
     for (cmd, cc) in [(v2::Command::Local, 0u8), (v2::Command::Proxy, 1u8)] {
         for (pr, pc) in [(v2::Protocol::Unspecified, 0u8), (v2::Protocol::Stream, 1), (v2::Protocol::Datagram, 2)] {
             for (addr, fc, ab) in &addrs {
                 for (li, tl) in lists.iter().enumerate() {
-                    if li == 4 && *fc != 0x30 { continue; }      // the maximal header: 216 + 3 + value == 65535
+                    if li >= 4 && *fc != 0x30 { continue; }      // the maximal headers: 216 + TLVs == 65535
                     n += 1;
                     let case = format!("command={:?} transport={:?} addresses={:?} tlvs={:?}", cmd, pr, addr, tl.iter().map(|(k, v)| (*k, v.len())).collect::<Vec<_>>());
                     let want = enc_header(0x20 | cc, fc | pc, ab, tl);
@@ -381,4 +385,22 @@ pub fn check_c07_roundtrip() -> (Option<Mismatch>, usize) {
         }
     }
     (None, n)
+}
+
+// ------------------------------------------------------------------------------------------------------------- C01 (FromStr entry points)
+/// the `FromStr` implementations are entry points of the v1 parser too: same acceptance, addresses and header text
+pub fn c01_fromstr(input: &[u8]) -> Option<Mismatch> {
+    guarded(input, "a FromStr entry point (C01)", || {
+        let Ok(text) = std::str::from_utf8(input) else { return None };
+        let want = oracle_v1_str(text);
+        let fh = text.parse::<v1::Header<'static>>();
+        let fa = text.parse::<v1::Addresses>();
+        let ok = match (&want, &fh, &fa) {
+            (V1Out::Accept(shown, line), Ok(h), Ok(a)) => show_v1_addr(&h.addresses) == *shown && show_v1_addr(a) == *shown && h.header.as_bytes() == &line[..],
+            (V1Out::Accept(..), _, _) => false,
+            (_, Err(_), Err(_)) => true,
+            _ => false,
+        };
+        if ok { None } else { mm(input, format!("FromStr entry points: {:?}", want), format!("FromStr<Header> {:?} / FromStr<Addresses> {:?}", fh, fa)) }
+    })
 }
